@@ -6,6 +6,7 @@ not use the compile model (the REAL Core run under Sem on every value of the scr
 depth bound vs firstMatch on the source patterns)."""
 import json, os, re, subprocess
 import vlib
+from props import c01 as C01
 
 
 def classify(detail):
@@ -118,7 +119,44 @@ def run(ctx):
             ctx.broken_ties.append(("a hypothesis of compileRows_correct does not hold on a real input", f"{sid}: {hyp}"))
         if len(samples) < 4 and stream in ("small", "repo") and kind == "CORE" and site.count("(p") >= 4 and len(site) < 900:
             samples.append({"id": sid, "site": site, "real_core": payload[:700], "l1": l1, "oracle": orc, "values": nvals})
-    ctx.violations.sort(key=lambda v: len(v[2].get("site") or ""))
+    # whole pipeline: the runnable small-matrix programs must behave at every later stage
+    # (mono, lift, ANF with its tag/literal arm heads, the Go switch) as their Core does
+    pipe_rows = vlib.read_tsv(os.path.join(ctx.run_dir, "c06pipe.cases.tsv")) if ok and os.path.exists(os.path.join(ctx.run_dir, "c06pipe.cases.tsv")) else []
+    progs = {}
+    for r in pipe_rows:
+        d = progs.setdefault(r[0], {"stages": {}})
+        if r[1] == "SRC":
+            d["src"] = vlib.unesc(r[2])
+        elif r[1] == "STAGE":
+            d["stages"][r[2]] = r[3]
+        elif r[1] in ("REJECT", "PANIC"):
+            d["rejected"] = r[2] + " " + (r[3] if len(r) > 3 else "")
+    progs = C01.evaluate(ctx, progs)
+    n_pipe = n_pipe_agree = n_pipe_lines = n_pipe_missing = n_pipe_rej = 0
+    for pid, d in progs.items():
+        if not d["stages"]:
+            n_pipe_rej += 1
+            if "non-exhaustive match on integer literal" not in d.get("rejected", ""):
+                ctx.broken_ties.append(("pipeline stream: generated program not accepted", f"{pid}: {d.get('rejected', '')[:200]}"))
+            continue
+        o = d["out"]
+        if any(v is None or v[0] in ("decode-error", "parse-error") for v in o.values()):
+            ctx.broken_ties.append(("pipeline stream: stage dump not evaluated", f"{pid}: {[(k, v and v[0]) for k, v in o.items()]}"))
+            continue
+        n_pipe += 1
+        ref = o["core"]
+        n_pipe_lines += vlib.unesc(ref[1]).count("\n")
+        n_pipe_missing += ref[0] == "panic:missing"
+        div = next((st for st in C01.STAGES if (o[st][0], o[st][1]) != (ref[0], ref[1])), None)
+        if div is None:
+            n_pipe_agree += 1
+        else:
+            kind = "stdout-differs" if o[div][0] == ref[0] else f"ends-differently:{ref[0].split(':')[0]}->{o[div][0].split(':')[0]}"
+            ctx.report({"oracle": "stagewise", "first_divergent_stage": div, "kind": kind},
+                       f"a match behaves differently at the {div} stage than in Core",
+                       {"id": pid, "src": d.get("src"), "site": "",
+                        "outcomes": {k: {"status": v[0], "stdout": vlib.unesc(v[1])[:400]} for k, v in o.items()}})
+    ctx.violations.sort(key=lambda v: len(v[2].get("site") or v[2].get("src") or ""))
     kinds = next((r[1] for r in rows if r[0] == "#KINDS"), "")
     small = next((r[1] for r in rows if r[0] == "#SMALL"), "")
     feats = next((r[1] for r in rows if r[0] == "#FEATS"), "")
@@ -138,10 +176,13 @@ def run(ctx):
         "oracle_sites_ok": n_orc_ok, "impl_oracle_failures": len(ctx.violations),
         "model_diffs": sum(1 for n, _ in ctx.broken_ties if n.startswith("L1")),
         "theorem_hypotheses_violated_on_real_inputs": n_hyp_bad,
+        "pipeline_programs_run_at_5_stages": n_pipe, "pipeline_programs_all_stages_agree": n_pipe_agree,
+        "pipeline_match_results_printed": n_pipe_lines, "pipeline_programs_ending_in_missing": n_pipe_missing,
+        "pipeline_programs_rejected(int literal without catch-all)": n_pipe_rej,
     }
     ctx.assumptions += [
         "Sem (Model/Sem.lean) is the meaning of Core; `missing` is the builtin that fails at that point",
-        "the decision tree is judged at Core level; ANF tag lowering and the Go switch are covered through C01's stage-wise oracle",
+        "the decision tree is judged at Core level against firstMatch; its ANF/Go lowering is judged by stage-wise agreement with the Core of the same program (Sem / Go.Sem) on the runnable small-matrix programs",
         "values are enumerated from the type definition up to depth 3 with a per-site cap (integers/strings: the literals of the site plus fresh ones)",
         "marker bodies replace the arm bodies (compile_rows does not inspect bodies except for their type annotation)",
     ]
